@@ -141,6 +141,7 @@ StepT(s, t) ==
             (CASE op.op = "guard" -> Ret([s1 EXCEPT !.ug = @ \cup {t}], t, "ok", 0)     \* a user keeps an IndexReadGuard
               [] op.op \in {"get", "size", "range", "reader"} ->
                     IF s.idx[me.k] = Absent THEN Ret(s1, t, Absent, 0)
+                    ELSE IF op.op = "size" THEN Ret(s1, t, s.idx[me.k], 0)      \* index metadata only, no blob I/O
                     ELSE \* OpenUnderGuard: the read guard is kept until the blob file is open
                          At([s1 EXCEPT !.th[t].item = s.idx[me.k], !.rd = IF OpenUnderGuard THEN @ \cup {t} ELSE @], t, "F:read_open")
               [] op.op = "del" ->
